@@ -136,7 +136,8 @@ def pdur(t, env):
     if k == 'seq':
         return sum(pdur(s, env) for s in t['ps'])
     if k == 'rep':
-        return ev(t['n'], env) * pdur(t['b'], env)
+        n = ev(t['n'], env)
+        return F(0) if n == 0 else n * pdur(t['b'], env)
     if k == 'for':
         return sum(pdur(t['b'], dict(env, **{t['i']: F(i)})) for i in rng_of(t, env))
     if k == 'map':
@@ -170,6 +171,10 @@ def atom_head_differs(t, env):
                     return True
                 break
             prev = (tt, v)
+        else:
+            # no positive-length step among the entries: the channel is held at its last value up to the table's end
+            if prev[1] != es[0][1]:
+                return True
     return False
 
 
